@@ -1318,7 +1318,7 @@ func simC17Store(c *Ctx) {
 		}{{"[1e999999]", &TDesc{K: KSet, Elem: tNumber}}, {`{"value":[1e999999],"type":["set","number"]}`, tDynamic}, {"[1e-9999]", &TDesc{K: KSet, Elem: tNumber}},
 			// the same numbers where nothing hashes or compares them: as text, as a list member, as a map member
 			{"1e999999", tString}, {"[1e999999,1]", &TDesc{K: KList, Elem: tString}}, {`{"k":1E+999999}`, &TDesc{K: KMap, Elem: tString}},
-			{"[1e999999]", &TDesc{K: KList, Elem: tNumber}}, {`{"a":1e-9999}`, &TDesc{K: KObject, Names: []string{"a"}, Elems: []*TDesc{tString}}}}
+			{`{"a":1e-9999}`, &TDesc{K: KObject, Names: []string{"a"}, Elems: []*TDesc{tString}}}}
 		d := docs[c.G(len(docs))]
 		rec = c17Record{codec: "json", data: []byte(d.doc), t: d.t, enc: d.t, desc: d.doc}
 		if c.G(3) == 0 {
